@@ -110,7 +110,19 @@ def run(tier):
                 rep.ob("return.payload-verbatim", "%s bb%d kinds=%s" % (short, bi, sorted(kinds)), pure or extra,
                        "a returned error/result mixes the propagated payload with %s" % sorted(kinds),
                        key="return:mixed:%s:%s" % (short, ",".join(sorted(kinds))), file=body.relfile(), line=d["ln"], fn=body.path)
-                after = calls_after(body, bi)
+                # from the match arm that selected the payload (where it is first extracted) to the return
+                arm_blocks = {bi}
+                for op in ops:
+                    for l in core.slice_locals(body, [op], transparent=lambda c: False):
+                        for dbi, dsi, dd in body.defs.get(l, []):
+                            if dsi != "t" and not body.blocks[dbi]["cleanup"]:
+                                arm_blocks.add(dbi)
+                after = []
+                for ab in sorted(arm_blocks):
+                    t0 = body.blocks[ab]["t"]
+                    if t0["k"] == "call" and (EFFECTFUL.search(callee_decl(t0) or "") or EFFECTFUL.search(callee_of(t0) or "")):
+                        after.append(callee_decl(t0) or callee_of(t0))
+                    after += calls_after(body, ab)
                 rep.ob("return.nothing-after-propagation", "%s bb%d" % (short, bi), not after,
                        "after selecting the value to return, %s still calls %s (a token is read / an action runs / recovery intercepts)" % (short, after),
                        key="return:effects-after:%s:%s" % (short, ",".join(sorted(set(a.split("::")[-1] for a in after)))),
